@@ -249,14 +249,16 @@ TEXT["C08"] = {
 
 TEXT["C15"] = {
     "design_ref": "DESIGN.md §4.15",
-    "technique": "Lean 4 invariant proofs over a transition system of manageEvalLoop + session events + request loops with the environment free to act at any point (partial: atomic-step model) + real-time differential correspondence of the real loops against a scripted fake Zookeeper",
-    "text": ("Proof (partial): Props/C15.lean proves over every sequence of lock failures, expiries and reconnections with any timing: resumes_only_after — the gate is (re)opened only after the "
-             "connection was seen back, the old lock released and the lock acquired again, in that order; holder_only_partial — if no expiry is broadcast between Lock() returning and the manager "
-             "reaching Wait(), the gate is open only between setting and clearing the flag, the lock is owned from acquisition until an expiry wakes the manager, and no sweep ever runs without the "
-             "lock (other than in the instant before the woken manager clears the flag; woken_clears); pacing — evaluation times of a continuously listed group are pairwise more than the shortest "
-             "interval apart for any sweep times of any number of loops. Known finding D12: lost_wakeup_witness + lost_wakeup_stuck prove that an expiry delivered between Lock() returning and Wait() "
-             "is lost and the instance then evaluates WITHOUT the lock for every continuation until a further expiry; reproduced on the real code in every run (KNOWN-FINDING). Tie: real loops "
-             "+ real zookeeper coordinator vs the model's trace on scripted multi-cycle scenarios in real time."),
+    "technique": "Lean 4 invariant proofs over a transition system of manageEvalLoop + session events + request loops with the environment free to act at any point (atomic-step model) + real-time differential correspondence of the real loops against a scripted fake Zookeeper",
+    "text": ("Proof: Props/C15.lean proves over EVERY sequence of lock failures, expiries, reconnections and other session events with any timing: resumes_only_after — the gate is (re)opened only "
+             "after the connection was seen back, the old lock released and the lock acquired again, in that order; holder_only — in every reachable state the gate is open only between setting and "
+             "clearing the flag, the manager waits only while it owns the lock and no expiry is uncounted (expiry_never_lost), and no sweep ever runs without the lock other than in the instants "
+             "between an expiry and the manager clearing the flag (woken_clears); pacing — evaluation times of a continuously listed group are pairwise more than the shortest interval apart for "
+             "any sweep times of any number of loops. holder_only is at full strength since the repair of D12 (fix 956740b: the manager notes the expiration count before Lock() and does not wait "
+             "if it has changed); original_protocol_lost_the_wakeup proves, on the model of the ORIGINAL protocol, the defect that was found and repaired (an expiry broadcast between Lock() "
+             "returning and Wait() was lost: the instance evaluated without the lock), early_expiry_is_seen that the same trace is now handled. Tie: real loops + real zookeeper coordinator vs "
+             "the model's trace on scripted multi-cycle scenarios in real time, incl. the expiry delivered inside Lock(), flaps (expiry + reconnection before the manager runs) and irrelevant "
+             "session events; Lock() calls made while the session is known to be gone are counted (prelock)."),
     "note": ("Trusted: Lean kernel + 3 standard axioms; the atomic-step abstraction; real-time margins; the fake Zookeeper's semantics. Not modelled: preemption inside steps, the data race on the plain "
              "bool, the non-exclusive RLock around LastEval, Unlock failing after expiry (Burrow panics by design). The tie is sampled."),
 }
